@@ -11,6 +11,7 @@ use std::time::Duration;
 
 pub mod c03;
 pub mod c04;
+pub mod c06n;
 pub mod c07s;
 pub mod c10c;
 pub mod c11;
